@@ -47,6 +47,31 @@ theorem fact_deactivation_renders_as_published :
     Facts.C13.generatedDocumentContexts = ["did.DIDContextV1URI()", "jsonld.JWS2020ContextV1URI()"] ∧
     Facts.C13.generatedDocumentContextAssignments = 0 ∧ Facts.C13.nutsEmptyDocumentContextAssignments = 0 := by decide
 
+/-- vdr/vdr.go: `Start` launches `rollbackLoop` (unless did:nuts is disabled); the loop sweeps once at start-up and then on
+    a one-minute ticker until shutdown; `Module` does not override `Rollback` (it is the embedded `SqlManager`'s). This is
+    the model's "the sweep runs, at the latest one ticker period after the threshold" (`Reach.sweep` is always enabled). -/
+theorem fact_rollback_loop_wiring :
+    Facts.C13.rollbackLoopShape =
+      ["ticker:60", "Rollback", "for", "for/case <-r.ctx.Done()/return", "for/case <-ticker.C/Rollback"] ∧
+    Facts.C13.startLaunchesRollbackLoop = true ∧ Facts.C13.startReturnsEarlyWhen = "r.networkAmbassador == nil" ∧
+    Facts.C13.moduleOverridesRollback = false := by decide
+
+/-- vdr/vdr.go `Configure`: the did:nuts manager is registered under "nuts", the did:web manager under "web", and that map
+    is what `didsubject.New` gets; `DIDChangeLog.Method` (how `Rollback` picks the manager for `IsCommitted`) is the method
+    of the version's DID. The model's `Method` ↦ manager assignment (`commitLoop`, `isCommitted`). -/
+theorem fact_method_manager_wiring :
+    Facts.C13.methodManagerRegistrations = ["didnuts.MethodName=didnuts.NewManager", "didweb.MethodName=didweb.NewManager"] ∧
+    Facts.C13.methodNames = ["nuts", "web"] ∧
+    Facts.C13.subjectManagerConstruction = "db,methodManagers,r.keyStore,r.supportedDIDMethods" ∧
+    Facts.C13.changeLogMethod = ["parse:d.DIDDocumentVersion.DID.ID", "\"_unknown\"", "id.Method"] := by decide
+
+/-- did_document.go: "latest" = highest version (`order by version desc`) in both `Latest` (with keys and services preloaded)
+    and `CreateOrUpdate`: the head of the model's version stack -/
+theorem fact_latest_is_highest_version :
+    Facts.C13.latestQuery = ["Order:version desc", "Preload:DID", "Preload:Services", "Preload:VerificationMethods",
+      "Where:did = ? AND updated_at <= ?"] ∧
+    Facts.C13.createOrUpdateQuery = ["Order:version desc", "Preload:DID", "Where:did = ?"] := by decide
+
 /-- the configuration the source describes today -/
 def cfgNow (methods : List Method) : Cfg :=
   { methods := methods
